@@ -653,7 +653,7 @@ class Engine:
         if isinstance(v, (ClassRef, FuncRef, BoundMethod, Builtin, ExtRef, Obj, ExcVal, Module)):
             return True
         if hasattr(v, "sym_truthy"):
-            return v.sym_truthy
+            return v.sym_truthy         # bool or z3 Bool
         if isinstance(v, ExtVal):
             return self.uf("ext_truthy", self.PV, z3.BoolSort())(self.to_pv(v))
         if isinstance(v, SeqMap):
@@ -1387,6 +1387,14 @@ class Engine:
             else:
                 raise Unsupported("f-string part")
         return mk_str(parts)
+
+    def as_sstr(self, path, v):
+        """str value as str | SStr (a Sym known to be a string is opened up)"""
+        if isinstance(v, Sym):
+            if self.tag_of(path, v) != "StrV":
+                self.throw(path, "TypeError", "expected string or bytes-like object")
+            return self.from_pv(self.U.strv(self.PV.s(v.term)))
+        return v
 
     def str_parts(self, path, s):
         if isinstance(s, str):
